@@ -150,7 +150,9 @@ func (c *Ctx) edgeMust(P, rule, fnName, condRe string, truth bool, mustRe string
 			}
 		}
 		if !ignored {
-			o.unresolved("%d branches on /%s/ found in %s, expected at least %d: anchors are stale", n, condRe, fnName, minIfs)
+			// as for an E1 row whose assumed atom no branch tests: the guard the construct hangs on is
+			// absent, changed or inverted — the tree no longer does what the row says on that edge
+			o.fail(o.Pos, "%d branch(es) on /%s/ found in %s, %d confirmed by reading: the test this obligation hangs on is gone or has been changed, so %s is no longer owed on any edge", n, condRe, fnName, minIfs, mustRe)
 		}
 	}
 	return *o
